@@ -290,12 +290,14 @@ def run(tier):
     # ---- produce the batch of real images ----------------------------------------------------------------
     scen = [(s, []) for s in gen.standard_scenarios(work, rng, bs=4096)] + c01.boundary_scenarios(work, rng, tier)
     comps = ["gzip", "xz", "lz4", "zstd", "lzma"]
-    optsets = [[], ["-e"], ["-T"], ["-b", "131072"], ["-B", "65536"], ["-j", "4"], ["-X", "@"], ["-e", "-X", "@"]]
+    optsets = [[], ["-e"], ["-T"], ["-b", "131072"], ["-B", "65536"], ["-j", "4"], ["-X", "@"], ["-e", "-X", "@"],
+               # combinations: each option adds or moves a table / changes block boundaries, the invariants hold for all of them together
+               ["-e", "-T"], ["-e", "-T", "-b", "8192", "-X", "@"], ["-T", "-B", "65536", "-j", "3"], ["-e", "-b", "1048576"]]
     XOPT = {"gzip": "level=3,window=10,huffman,default", "xz": "dictsize=8192,x86,level=1", "lz4": "hc", "zstd": "level=7", "lzma": "dictsize=8192,lc=1,lp=1,pb=1"}
     jobs = []
     for si, (s, base) in enumerate(scen):
-        for k in range(2 if tier == "quick" else 5):
-            opts = optsets[(si + 2 * k) % len(optsets)]
+        for k in range(3 if tier == "quick" else 6):
+            opts = optsets[(si + 2 * k) % len(optsets)] if k < 2 or tier != "quick" else optsets[8 + si % 4]
             if "-b" in base and "-b" in opts:
                 opts = []
             comp_ = comps[(si + k) % len(comps)]
